@@ -1,6 +1,7 @@
 """C03: decision tables return what their hit policy prescribes - dispatch, collection order, result shape, default path, attribute tables (DESIGN §3 C03)."""
 import json
 import os
+import re
 
 import hirflow
 import mirutil
@@ -421,6 +422,39 @@ def run(F, rep, tier):
             else:
                 rep.violation(r6, "aggregator-guard:%s" % pol, "%s refuses tables under a different condition than the other aggregators: %s vs %s" % (aggs[pol].split("::")[-1], sorted(gs)[:2], sorted(major)[:2]),
                               "%s:%s" % (FILE, F.hir[aggs[pol]]["line"]))
+
+    # ---------------- R03.8: the aggregating policies (count included) aggregate over ALL matching rules' outputs
+    r8 = rep.rule("R03.8", "COLLECT with an aggregator (+, <, >, #) consumes the outputs of all matching rules: no de-duplication, filtering or truncation between the matching rules and the aggregate")
+    FILTERS = re.compile(r"::(dedup|dedup_by|dedup_by_key|retain|retain_mut|filter|filter_map|skip|skip_while|take|take_while|step_by|truncate|drain|sort_unstable_by_key|unique|contains|"
+                         r"swap_remove)$|collections::(hash|btree)::(set|map)::")
+    for pol in ("Collect:Sum", "Collect:Min", "Collect:Max", "Collect:Count"):
+        meth = (dispatch.get(pol) or [None])[0]
+        if meth not in F.bodies:
+            rep.undecided(r8, "aggregate-all:%s" % pol, "evaluation method of %s not found" % pol)
+            continue
+        seen_b, work = set(), [meth]
+        bad = []
+        while work:
+            bn = work.pop()
+            if bn in seen_b or bn not in F.bodies:
+                continue
+            seen_b.add(bn)
+            for bi, c in F.body_calls(F.bodies[bn]):
+                p2 = c["f"].get("p") or ""
+                if FILTERS.search(p2):
+                    bad.append((p2.split("::")[-1] if "collections::" not in p2 else p2.split("collections::")[1].split("::")[1], c.get("line")))
+                # private helpers of the decision-table module and the closures of this method (not get_results / the rule matching itself)
+                if (p2.startswith(bn + "::{closure") or (p2.startswith(DT) and F.fns.get(p2, {}).get("vis") != "pub" and not re.search(r"::(get_results|get_result|get_matching_rules\w*)$", p2))):
+                    work.append(p2)
+            for cn in F.bodies:
+                if cn.startswith(bn + "::{closure"):
+                    work.append(cn)
+        key = "aggregate-all:%s" % pol
+        if bad:
+            rep.violation(r8, key, "%s applies %s to the matching rules' outputs before aggregating (line %s): the aggregate must range over the outputs of all matching rules "
+                          "(C# counts rules, not distinct outputs)" % (meth.split("::")[-1], sorted({b2[0] for b2 in bad}), bad[0][1]), "%s:%s" % (FILE, bad[0][1]))
+        else:
+            rep.ok(r8, key, "no filtering / de-duplication in %s" % meth.split("::")[-1])
 
     # ---------------- R03.7: list results are lists; per-clause collections are accumulated, not overwritten
     r7 = rep.rule("R03.7", "list-valued results are lists on every path (also for a single match); collections gathered over the clauses of a table grow in their loop and are never overwritten there")
